@@ -3,6 +3,7 @@ import NxProofs.Refine
 import NxProofs.RefineSend
 import NxProofs.Sys
 import NxProofs.Liveness
+import NxProofs.Unreliable
 import NxProps.C04
 /-!
 # C01 — PRUDP reliable channel: in-order, exactly-once, uncorrupted delivery
@@ -131,6 +132,18 @@ theorem C01_liveness (c : Cipher) (hc : CipherOk c) (size : Nat) (hsz : 1 ≤ si
     (run c size (init start) ops).r.core.decPos = (run c size (init start) ops).s.encPos :=
   C01_complete c hc size hsz start hs ops hok (all_arrived_all_released c hc size hsz start hs ops hok hopen hall) hidle hclean
 
+/-- **Graceful close is in order.** If the receiver has reached end-of-stream through the sender's DISCONNECT, and
+    `disconnect()` was called while no `send` was between its fragments, then every message ever passed to `send` was delivered
+    before the end-of-stream and nothing partial is left: `recv` returns all of them, then raises. -/
+theorem C01_closed_after_everything (c : Cipher) (hc : CipherOk c) (size : Nat) (hsz : 1 ≤ size) (start : Nat) (hs : start < 65536)
+    (ops : List Op) (hok : runOk c size (init start) ops = true)
+    (hcl : (run c size (init start) ops).r.core.closed = true) (hclean : (run c size (init start) ops).s.clean = true) :
+    (run c size (init start) ops).s.closing = true ∧
+    (run c size (init start) ops).r.core.reasm.out = (run c size (init start) ops).s.sent ∧
+    (run c size (init start) ops).r.core.reasm.buf = [] := by
+  obtain ⟨hS, hR⟩ := inv_run c hc size hsz start ops (init start) (inv_init c start hs).1 (inv_init c start hs).2 hok
+  exact closed_after_everything c start _ hS hR hcl hclean
+
 /-- the one-step `send` of the model is `begin` followed by one `frag` per fragment: the fragment-granular operations
     describe the same call, they only allow other things to happen in between -/
 theorem send_is_begin_then_frags (c : Cipher) (size : Nat) (s : Sender) (m : Bytes) (hcl : s.closing = false) (hp : s.pending = []) :
@@ -157,6 +170,24 @@ theorem rc4_like_ok (ks : Nat → UInt8) : CipherOk (xorCipher ks) := xorCipher_
 /-- an unreliable payload that is delivered is the one that was sent (same per-packet key on both sides) -/
 theorem unreliable_roundtrip (c : Cipher) (hc : CipherOk c) (pos : Nat) (x : Bytes) : c.dec pos (c.enc pos x) = x :=
   hc.dec_enc pos x
+
+open Nx.L1 Nx.Prudp in
+/-- **unreliable data on the endpoint model**: every packet `send_unreliable(data)` hands to the transport is a DATA packet
+    without the RELIABLE flag that decodes — at any endpoint holding the same unreliable base key and cipher setting, in any
+    state, after any other traffic — to exactly `data`, and decoding it leaves that endpoint as it was -/
+theorem unreliable_delivered_is_what_was_sent (env : Env) (hcomp : ∀ b, env.compress b = b) (hdec : ∀ b, env.decompress b = .ok b)
+    (now : Time) (a b : Conn) (data : Bytes) (hk : b.unrelKey = a.unrelKey) (hon : b.cipherOn = a.cipherOn) :
+    ∀ q ∈ emitted (a.sendUnreliable env now data),
+      q.type = TYPE_DATA ∧ hasReliable q.flags = false ∧ b.decodePayload env q = .ok (data, b) :=
+  unreliable_end_to_end env hcomp hdec now a b data hk hon
+
+/-! non-vacuity: a connected endpoint does emit a packet for `send_unreliable` (stream transport only to keep the kernel's
+    evaluation short; with RC4 the theorem is the same statement) -/
+open Nx.L1 Nx.Prudp in
+example :
+    let env : Env := { C04.toyEnv with s := { transport := TRANSPORT_TCP } }
+    let a := { Conn.new env (some 1) 1 2 3 ("10.0.0.2", 1) 15 10 ("10.0.0.1", 2) 1 10 with state := STATE_CONNECTED }
+    (emitted (a.sendUnreliable env 0 [7, 8, 9])).map (·.payload) = [[7, 8, 9]] := by decide +kernel
 
 /-- H-window cannot be dropped: a stale copy delayed by more than half the id space is accepted as a
     future packet (protocol-inherent, 16-bit ids). -/
@@ -190,6 +221,12 @@ example :
       (∀ j, j < (run idCipher 2 (init 65534) ops).s.log.length → j ∈ arrived idCipher 2 (init 65534) ops) ∧
       (run idCipher 2 (init 65534) ops).s.pending = [] ∧ (run idCipher 2 (init 65534) ops).s.closing = false ∧
       (run idCipher 2 (init 65534) ops).r.core.reasm.out = [[1, 2, 3], [4, 5, 6]] := by decide
+
+/-- the hypotheses of `C01_closed_after_everything` are met: two messages, a graceful disconnect, reordering -/
+example :
+    let ops := [Op.send [1, 2, 3], .send [4], .disconnect, .ping, .arrive 3, .arrive 2, .arrive 0, .arrive 1]
+    runOk idCipher 2 (init 9) ops = true ∧ (run idCipher 2 (init 9) ops).r.core.closed = true ∧
+      (run idCipher 2 (init 9) ops).s.clean = true ∧ (run idCipher 2 (init 9) ops).r.core.reasm.out = [[1, 2, 3], [4]] := by decide
 
 /-- a `send` that is still between its fragments: the hypotheses of `C01_complete_in_progress` are met -/
 example :
